@@ -59,6 +59,8 @@ def random_exec(rng, nops, maxlen, alphabet):
             if i >= 0: cur[o] = s[:i] + s[i + len(t):]
         elif r < 0.60:
             L.append("mem %d %s" % (o, hx(piece())))
+        elif r < 0.605:
+            L.append("remint %d" % o)
         elif r < 0.61:
             L.append("resizehuge %d" % o)
         elif r < 0.70:
